@@ -144,7 +144,7 @@ impl Inner {
         unsafe {
             let parsed: String = crate::from_slice_unchecked(raw).ok()?;
             let parsed = Arc::into_raw(Arc::new(parsed)) as *mut ();
-            match self.unescaped.compare_exchange_weak(
+            match self.unescaped.compare_exchange(
                 ptr,
                 parsed,
                 Ordering::AcqRel,
